@@ -40,14 +40,16 @@ theorem setTok_erase_none {T : List Tok} {i : Nat} {t : Tok} (h : setTok T i t =
 
 /-- what ParseOpen does after the first scalar has been pushed (a verbatim copy of the tail of
 `stepParseOpen`), as a function of the tape and the rest. -/
+def flagTape (mixed : Bool) (parent : Nat) (tape : List Tok) : List Tok :=
+  if mixed then
+    match tape[parent]? with
+    | some (.array e _) => tape.set parent (.array e true)
+    | some (.object e _) => tape.set parent (.object e true)
+    | _ => tape
+  else tape
+
 def poAfter (st : St) (tape : List Tok) (rest' : Bytes) : Step :=
-  let tape :=
-    if st.mixed then
-      match tape[st.parent]? with
-      | some (.array e _) => tape.set st.parent (.array e true)
-      | some (.object e _) => tape.set st.parent (.object e true)
-      | _ => tape
-    else tape
+  let tape := flagTape st.mixed st.parent tape
   match skipWs rest' with
   | none => .done (.err .eof)
   | some d2 =>
@@ -88,35 +90,20 @@ theorem flag_erase (T : List Tok) (p : Nat) :
   | some t => cases t <;> simp [Tok.erase, List.map_set]
 
 /-- `poAfter` only looks at the shapes of the tape, so it commutes with erasing positions. -/
+theorem flagTape_erase (m : Bool) (p : Nat) (T : List Tok) :
+    (flagTape m p T).map Tok.erase = flagTape m p (T.map Tok.erase) := by
+  unfold flagTape
+  split
+  · exact flag_erase T p
+  · rfl
+
+/-- `poAfter` only looks at the shapes of the tape, so it commutes with erasing positions. -/
 theorem poAfter_erase (st : St) (tape : List Tok) (rest' : Bytes) :
     (poAfter st tape rest').erase = (poAfter st (tape.map Tok.erase) rest').erase := by
   unfold poAfter
   simp only
-  have hflag : ∀ T : List Tok,
-      (if st.mixed = true then
-        match T[st.parent]? with
-        | some (.array e _) => T.set st.parent (.array e true)
-        | some (.object e _) => T.set st.parent (.object e true)
-        | _ => T
-       else T).map Tok.erase =
-      (if st.mixed = true then
-        match (T.map Tok.erase)[st.parent]? with
-        | some (.array e _) => (T.map Tok.erase).set st.parent (.array e true)
-        | some (.object e _) => (T.map Tok.erase).set st.parent (.object e true)
-        | _ => T.map Tok.erase
-       else T.map Tok.erase) := by
-    intro T; split
-    · exact flag_erase T st.parent
-    · rfl
-  generalize hA : (if st.mixed = true then
-        match tape[st.parent]? with
-        | some (.array e _) => tape.set st.parent (.array e true)
-        | some (.object e _) => tape.set st.parent (.object e true)
-        | _ => tape
-       else tape) = A
-  have hB := hflag tape
-  rw [hA] at hB
-  rw [← hB]
+  rw [← flagTape_erase]
+  generalize flagTape st.mixed st.parent tape = A
   cases skipWs rest' with
   | none => rfl
   | some d2 =>
